@@ -343,6 +343,7 @@ def _drive(case, root, fs, probes, sig):
             ddf = _guard("persist", lambda: ddf.persist(), sig)
             lazy_shuffle = False
             nfilters = 0
+            sig.pop("filter_after_lazy_shuffle", None)
             want = Counter(r for s in snaps for r in snap_records(s))
             snaps = _sync(ddf, want, probes, sig, "persist")
         elif op == "build_sindex":
@@ -374,6 +375,10 @@ def _drive(case, root, fs, probes, sig):
                 continue
             path = os.path.join(root, f"ds{si}")
             if step["writer"] == "to_parquet":
+                if lazy_shuffle and sig.get("filter_after_lazy_shuffle"):
+                    # known finding F06: the writer records bounds from another graph than
+                    # the one that writes the partitions
+                    sig["wrote_lazy_filtered_frame"] = True
                 _guard("to_parquet", lambda: ddf.to_parquet("simfs://" + path), sig)
                 want = Counter(r for s in snaps for r in snap_records(s))
                 widx = True
@@ -396,6 +401,7 @@ def _drive(case, root, fs, probes, sig):
             snaps = _sync(ddf, want, probes, sig, f"parquet[{step['writer']}]", with_index=widx)
             lazy_shuffle = False          # the re-read frame is materialised storage
             nfilters = 0
+            sig.pop("filter_after_lazy_shuffle", None)
             if step.get("geometry") in template["geo"] or step.get("bounds"):
                 geom = step.get("geometry") if step.get("geometry") in template["geo"] else None
                 box = step.get("bounds")
